@@ -357,7 +357,10 @@ def fmt(t, depth=0):
     if k == "local":
         return "_%s" % t[1]
     if k == "call":
-        return "%s(%s)" % (short(t[1]), ", ".join(fmt(a, d) for a in t[2]))
+        tag = ""
+        if len(t) > 3 and isinstance(t[3], tuple) and t[3][0] == "as":
+            tag = "#" + t[3][1]
+        return "%s(%s)%s" % (short(t[1]), ", ".join(fmt(a, d) for a in t[2]), tag)
     if k == "field":
         return "%s.%s" % (fmt(t[1], d), t[2])
     if k == "vfield":
@@ -505,7 +508,7 @@ class TermBuilder:
     def call_term(self, t, stack):
         name = callee(t)
         args = tuple(self.operand(a, stack) for a in t["args"])
-        return simplify_call(name, args, t)
+        return tag_ctor(self.fn, t, simplify_call(name, args, t))
 
     def operand(self, op, stack=()):
         k = op["k"]
@@ -521,6 +524,17 @@ class TermBuilder:
 
     def rvalue(self, rv, stack=()):
         return rvalue_term(self, rv, stack)
+
+
+def tag_ctor(fn, t, val):
+    """A zero-argument call (constructor) assigned to a user variable is a
+    distinct object per variable: `BTreeSet::new()` for `type_names` is not
+    the one for `action_names`."""
+    if isinstance(val, tuple) and val[0] == "call" and not val[2] and not t["dst"]["proj"]:
+        nm = fn.var_name(t["dst"]["l"])
+        if nm:
+            return ("call", val[1], (), ("as", nm))
+    return val
 
 
 def simplify_call(name, args, t=None):
@@ -831,7 +845,7 @@ class Sim:
             if k == "call":
                 name = callee(t)
                 args = tuple(self.operand(env, a) for a in t["args"])
-                val = simplify_call(name, args, t)
+                val = tag_ctor(fn, t, simplify_call(name, args, t))
                 # value-producing calls on a receiver that was mutated earlier on
                 # this path are distinct atoms (epoch of the receiver)
                 if args and val and val[0] == "call":
